@@ -67,11 +67,17 @@ var c05Shapes = []c05Shape{
 	{"neg", func(*c05Ctx) engine.Term { return engine.Integer(-1) }},
 	{"minint", func(*c05Ctx) engine.Term { return engine.Integer(math.MinInt64) }},
 	{"maxint", func(*c05Ctx) engine.Term { return engine.Integer(math.MaxInt64) }},
+	{"minint1", func(*c05Ctx) engine.Term { return engine.Integer(math.MinInt64 + 1) }},
+	{"maxint1", func(*c05Ctx) engine.Term { return engine.Integer(math.MaxInt64 - 1) }},
 	{"float", func(*c05Ctx) engine.Term { return engine.Float(1.5) }},
 	{"cmp", func(*c05Ctx) engine.Term { return compound("f", engine.NewVariable()) }},
 	{"cut", func(*c05Ctx) engine.Term { return compound(",", atom("true"), atom("!")) }},
 	{"conj", func(*c05Ctx) engine.Term { return compound(",", atom("a"), atom("b")) }},
 	{"ncall", func(*c05Ctx) engine.Term { return compound(",", atom("true"), engine.Integer(1)) }},
+	// a callable that enumerates up to max_integer: two answers, then it must fail
+	{"gbet", func(*c05Ctx) engine.Term {
+		return compound("between", engine.Integer(math.MaxInt64-1), engine.Integer(math.MaxInt64), engine.NewVariable())
+	}},
 	{"list", func(*c05Ctx) engine.Term { return engine.List(atom("a"), atom("b")) }},
 	{"ilist", func(*c05Ctx) engine.Term { return engine.List(engine.Integer(1), engine.Integer(2)) }},
 	{"plist", func(*c05Ctx) engine.Term { return engine.PartialList(engine.NewVariable(), atom("a")) }},
@@ -122,15 +128,15 @@ var c05Shapes = []c05Shape{
 	{"bigcode", func(*c05Ctx) engine.Term { return engine.Integer(1114112) }},
 	// (sizes kept small: the writer and acyclic_term/1 scan a `visited` list per node, i.e. they are quadratic in
 	// the nesting depth — 20000 levels take ~17 s to write; slow, but the property does not bound time)
-	{"deep", func(*c05Ctx) engine.Term { // f(f(…f(a)…)), 1500 deep
+	{"deep", func(*c05Ctx) engine.Term { // f(f(…f(a)…)), 400 deep
 		var t engine.Term = atom("a")
-		for k := 0; k < 1500; k++ {
+		for k := 0; k < 400; k++ {
 			t = compound("f", t)
 		}
 		return t
 	}},
-	{"long", func(*c05Ctx) engine.Term { // [0,1,…,1499]
-		es := make([]engine.Term, 1500)
+	{"long", func(*c05Ctx) engine.Term { // [0,1,…,399]
+		es := make([]engine.Term, 400)
 		for k := range es {
 			es[k] = engine.Integer(k)
 		}
@@ -265,34 +271,208 @@ func c05Matrix(r *rand.Rand, idx []int) (small, big []string) {
 	return small, big
 }
 
+// the boundary integers (and an unbound variable): every vector over these for arity ≤ 3, every pair of
+// positions for higher arities — pairwise coverage does not reach e.g. between(max, max, X)
+var c05IntShapes = []string{"var", "minint", "minint1", "neg", "int0", "int1", "maxint1", "maxint"}
+
+// fillers that let an integer argument check be reached (arg/3, nth0/3, sub_atom/5 …)
+var c05Fillers = []string{"atom", "cmp", "list", "chars"}
+
+func c05Idx(names []string) []int {
+	out := make([]int, len(names))
+	for k, n := range names {
+		i, ok := c05ShapeIdx[n]
+		if !ok {
+			panic("unknown shape " + n)
+		}
+		out[k] = i
+	}
+	return out
+}
+
+func c05IntRows(r *rand.Rand, tier string) []string {
+	ints := c05Idx(c05IntShapes)
+	fill := c05Idx(c05Fillers)
+	v := c05ShapeIdx["var"]
+	var out []string
+	for _, p := range c05Procs() {
+		if c05Excluded(p) || p.arity < 2 {
+			continue
+		}
+		if p.arity <= 3 {
+			vec := make([]int, p.arity)
+			var rec func(k int)
+			rec = func(k int) {
+				if k == p.arity {
+					out = append(out, c05Case(p, vec))
+					return
+				}
+				for _, x := range ints {
+					vec[k] = x
+					rec(k + 1)
+				}
+			}
+			rec(0)
+			if tier == "thorough" && p.arity == 3 { // one filler, integers elsewhere
+				for fp := 0; fp < 3; fp++ {
+					for _, f := range fill {
+						for _, a := range ints {
+							for _, b := range ints {
+								vec := []int{a, b}
+								row := append(append(append([]int{}, vec[:fp]...), f), vec[fp:]...)
+								out = append(out, c05Case(p, row))
+							}
+						}
+					}
+				}
+			}
+			continue
+		}
+		if tier != "thorough" && (p.name == "call" || p.name == "maplist") {
+			continue
+		}
+		for a := 0; a < p.arity; a++ {
+			for b := a + 1; b < p.arity; b++ {
+				for _, x := range ints {
+					for _, y := range ints {
+						vec := make([]int, p.arity)
+						for k := range vec {
+							vec[k] = v
+							if tier == "thorough" && r.Intn(2) == 0 {
+								vec[k] = fill[r.Intn(len(fill))]
+							}
+						}
+						vec[a], vec[b] = x, y
+						out = append(out, c05Case(p, vec))
+					}
+				}
+			}
+		}
+	}
+	return out
+}
+
+// edge atoms in every position kind: quick — per (procedure, atom) three random (kind, argument position,
+// context) choices; thorough — every (procedure, argument position, atom, kind) with one random context
+func c05EdgeRows(r *rand.Rand, tier string) []string {
+	ctxs := c05Idx([]string{"var", "atom", "int1", "list"})
+	nk := len(c05EdgeKinds)
+	var out []string
+	for _, p := range c05Procs() {
+		if c05Excluded(p) || p.arity == 0 {
+			continue
+		}
+		row := func(pos, shape int) {
+			vec := make([]int, p.arity)
+			c := ctxs[r.Intn(len(ctxs))]
+			for k := range vec {
+				vec[k] = c
+			}
+			vec[pos] = shape
+			out = append(out, c05Case(p, vec))
+		}
+		for ai := range c05EdgeAtoms {
+			if tier == "thorough" {
+				for pos := 0; pos < p.arity; pos++ {
+					for k := 0; k < nk; k++ {
+						row(pos, c05BaseCount+ai*nk+k)
+					}
+				}
+			} else {
+				for n := 0; n < 3; n++ {
+					row(r.Intn(p.arity), c05BaseCount+ai*nk+r.Intn(nk))
+				}
+			}
+		}
+	}
+	return out
+}
+
+// evaluable expressions in both argument positions of the arithmetic predicates
+func c05EvalRows() []string {
+	var out []string
+	for _, p := range c05Procs() {
+		switch p.name {
+		case "is", "=:=", "=\\=", "<", "=<", ">", ">=", "succ":
+		default:
+			continue
+		}
+		if p.arity != 2 {
+			continue
+		}
+		for _, x := range c05ExprShapeNames {
+			xi := c05ShapeIdx[x]
+			for _, other := range []string{"var", "int1", "float"} {
+				oi := c05ShapeIdx[other]
+				out = append(out, c05Case(p, []int{oi, xi}), c05Case(p, []int{xi, oi}))
+			}
+			out = append(out, c05Case(p, []int{xi, xi}))
+		}
+	}
+	return out
+}
+
+// interpreters made by prolog.New(nil, nil) (README: "if you don't need user_input/user_output")
+func c05NilRows() []string {
+	var out []string
+	for _, p := range c05Procs() {
+		if c05Excluded(p) {
+			continue
+		}
+		for _, first := range []string{"var", "atom", "alias", "aliaso"} {
+			vec := make([]int, p.arity)
+			for k := range vec {
+				vec[k] = c05ShapeIdx["var"]
+				if first == "atom" {
+					vec[k] = c05ShapeIdx["atom"]
+				}
+			}
+			if p.arity > 0 {
+				vec[0] = c05ShapeIdx[first]
+			} else if first != "var" {
+				continue
+			}
+			out = append(out, "gn"+strings.TrimPrefix(c05Case(p, vec), "g"))
+		}
+	}
+	return out
+}
+
 func genC05Matrix(r *rand.Rand, n int, tier string) []string {
-	all := make([]int, len(c05Shapes))
+	all := make([]int, c05BaseCount)
 	for k := range all {
 		all[k] = k
 	}
 	out := []string{"procs"}
 	small, big := c05Matrix(r, all)
 	out = append(out, small...)
+	out = append(out, c05NilRows()...)
+	seen := map[string]bool{}
+	add := func(cs []string) {
+		for _, c := range cs {
+			if !seen[c] {
+				seen[c] = true
+				out = append(out, c)
+			}
+		}
+	}
+	add(c05IntRows(r, tier))
+	add(c05EvalRows())
+	add(c05EdgeRows(r, tier))
 	if tier == "thorough" || n <= 0 || n >= len(big) {
-		return append(out, big...)
+		add(big)
+		return out
 	}
 	// quick: arity ≤ 1 over all shapes; the complete matrix over the core shapes; a uniform sample of the rest
-	var core []int
-	for _, name := range c05Core {
-		core = append(core, c05ShapeIdx[name])
-	}
-	_, coreBig := c05Matrix(r, core)
-	seen := map[string]bool{}
-	for _, c := range coreBig {
-		seen[c] = true
-	}
-	out = append(out, coreBig...)
+	_, coreBig := c05Matrix(r, c05Idx(c05Core))
+	add(coreBig)
 	r.Shuffle(len(big), func(a, b int) { big[a], big[b] = big[b], big[a] })
 	for _, c := range big {
 		if n <= 0 {
 			break
 		}
 		if !seen[c] {
+			seen[c] = true
 			out = append(out, c)
 			n--
 		}
@@ -358,7 +538,7 @@ func runC05Matrix(payload string) string {
 		}
 		return "procs " + strings.Join(names, " ") + " ### nt=0 kind=procs"
 	}
-	if f[0] != "g" || len(f) < 3 {
+	if (f[0] != "g" && f[0] != "gn") || len(f) < 3 {
 		panic("bad c05.matrix case: " + payload)
 	}
 	name, err := decName(f[1])
@@ -369,6 +549,9 @@ func runC05Matrix(payload string) string {
 		panic("bad c05.matrix case (arity): " + payload)
 	}
 	i, _ := newInterp("")
+	if f[0] == "gn" {
+		i = prolog.New(nil, nil)
+	}
 	c := &c05Ctx{i: i}
 	args := make([]engine.Term, arity)
 	for j := range args {
@@ -402,27 +585,49 @@ func runC05Matrix(payload string) string {
 			full = compound(",", c.prelude[k], full)
 		}
 	}
-	// run 1: backtrack through up to 20 answers (redo paths of the predicate); run 2: the same goal once more
-	// on the interpreter as run 1 left it (state-dependent paths: asserted clauses, opened/closed streams, ops)
-	once := func(max int) string {
+	// run 1: backtrack through up to 20 answers and, when there are fewer, one more redo after the last one (redo
+	// paths of the predicate; the answer count is judged against the relation where the spec knows it);
+	// run 2: the same goal once more on the interpreter as run 1 left it (state-dependent paths: asserted
+	// clauses, opened/closed streams, ops).  Then the host-side API surface on the error / the first answer.
+	const maxAnswers = 20
+	var firstEnv *engine.Env
+	var lastErr error
+	count := 0
+	once := func(max int, record bool) string {
 		ctx, cancel := context.WithTimeout(context.Background(), c05GoalTimeout)
 		defer cancel()
 		preludeOK = len(c.prelude) == 0
 		n := 0
-		_, ferr := engine.Call(&i.VM, full, func(*engine.Env) *engine.Promise {
+		_, ferr := engine.Call(&i.VM, full, func(env *engine.Env) *engine.Promise {
 			n++
+			if record && n == 1 {
+				firstEnv = env
+			}
 			return engine.Bool(n >= max)
 		}, nil).Force(ctx)
+		if record {
+			count, lastErr = n, ferr
+		}
 		if !preludeOK {
 			return "PRELUDE-FAILED " + c05Result(false, ferr)
 		}
 		return c05Result(n > 0, ferr)
 	}
-	res1 := once(20)
-	res2 := once(1)
+	res1 := once(maxAnswers, true)
+	cnt := strconv.Itoa(count)
+	if count >= maxAnswers {
+		cnt += "+"
+	}
+	res2 := once(1, false)
+	var answer engine.Term
+	if count > 0 {
+		answer = goal
+	}
+	host := hostSurface(&i.VM, lastErr, answer, firstEnv)
 	nt := 0
 	if strings.HasPrefix(res1, "err ") || strings.HasPrefix(res2, "err ") {
 		nt = 1
 	}
-	return fmt.Sprintf("%s ; %s ### nt=%d out=%s out2=%s ar=%d", res1, res2, nt, c05Class(res1), c05Class(res2), arity)
+	return fmt.Sprintf("%s ; %s ; n %s ; host %s ### nt=%d out=%s out2=%s ar=%d io=%s host=%s", res1, res2, cnt, host, nt,
+		c05Class(res1), c05Class(res2), arity, f[0], strings.Fields(host)[0])
 }
